@@ -108,6 +108,10 @@ struct Scenario {
     /// its output - background tasks are tool subprocesses too (ripd tasks/pipes.rs, pty.rs)
     #[serde(default)]
     task_env_dump: Option<String>,
+    /// the run goes through the real CLI: `rip run <prompt> <args>` (auto-spawned authority, thread path with the
+    /// overrides the CLI derives from its environment / flags), then `rip config doctor`
+    #[serde(default)]
+    cli_run: Option<Vec<String>>,
 }
 
 #[allow(dead_code)]
@@ -322,6 +326,9 @@ struct ChildSpec {
     rip_bin: Option<String>,
     #[serde(default)]
     task_env_dump: Option<String>,
+    /// `rip run <prompt> <these args>` before the doctor calls (CLI surface only)
+    #[serde(default)]
+    cli_run: Option<Vec<String>>,
 }
 #[derive(Serialize, Deserialize, Debug, Default)]
 struct ChildObs {
@@ -362,13 +369,15 @@ fn pid_gone(pid: u32) -> bool {
 async fn child_drive_cli(spec: &ChildSpec, rip: &str) -> ChildObs {
     let mut obs = ChildObs::default();
     let mut raw: Vec<u8> = vec![];
-    let run_cli = |obs: &mut ChildObs| -> Option<Value> {
+    let run_cli = |obs: &mut ChildObs, args: &[String]| -> Option<String> {
         // a generous, load-independent loop: the CLI gives the authority it spawned 8 s to answer; on a loaded box
         // that can expire although nothing is wrong (the authority keeps starting; the next call attaches to it).
         // Every attempt's output is kept and searched.
         for _ in 0..60 {
-            let out = std::process::Command::new(rip)
-                .args(["config", "doctor"])
+            let out = std::process::Command::new("timeout")
+                .arg("900")
+                .arg(rip)
+                .args(args)
                 .env("RIP_DATA_DIR", &spec.data_dir)
                 .env("RIP_WORKSPACE_ROOT", &spec.workspace)
                 .stdin(std::process::Stdio::null())
@@ -385,21 +394,41 @@ async fn child_drive_cli(spec: &ChildSpec, rip: &str) -> ChildObs {
             let code = out.status.code().unwrap_or(-1);
             obs.cli_runs.push((code, so.clone(), se.clone()));
             if out.status.success() {
-                return serde_json::from_str::<Value>(&so).ok();
+                return Some(so);
             }
             if se.contains("timed out waiting for local authority") || se.contains("error sending request") {
                 obs.cli_waits += 1;
                 std::thread::sleep(Duration::from_millis(500));
                 continue;
             }
-            obs.errors.push(format!("rip config doctor failed ({code}): {}", se.chars().take(300).collect::<String>()));
+            obs.errors.push(format!("rip {} failed ({code}): {}", args.join(" "), se.chars().take(300).collect::<String>()));
             return None;
         }
-        obs.errors.push("rip config doctor: the local authority never answered in 60 attempts".into());
+        obs.errors.push("rip: the local authority never answered in 60 attempts".into());
         None
     };
-    obs.doctor = run_cli(&mut obs).unwrap_or(Value::Null);
-    obs.doctor_after = run_cli(&mut obs).unwrap_or(Value::Null);
+    let doctor_args: Vec<String> = vec!["config".into(), "doctor".into()];
+    if let Some(extra) = &spec.cli_run {
+        // the whole run through the CLI: `rip run <prompt> ..` (headless; prints the frames / the output / the metrics)
+        let mut args: Vec<String> = vec!["run".into(), spec.prompt.clone()];
+        args.extend(extra.iter().cloned());
+        if let Some(out) = run_cli(&mut obs, &args) {
+            obs.bodies.push(("rip run".into(), out));
+        }
+        // the thread's run_ended frame and the snapshot are written after the session ended (when the CLI returns)
+        let cont_dir = Path::new(&spec.data_dir).join("continuity_streams");
+        let snaps = Path::new(&spec.data_dir).join("snapshots");
+        for _ in 0..12000 {
+            let ended = any_log_has(&cont_dir, "", "continuity_run_ended");
+            let snap = std::fs::read_dir(&snaps).map(|rd| rd.flatten().any(|e| e.metadata().map(|m| m.len() > 0).unwrap_or(false))).unwrap_or(false);
+            if ended && snap {
+                break;
+            }
+            tokio::time::sleep(Duration::from_millis(10)).await;
+        }
+    }
+    obs.doctor = run_cli(&mut obs, &doctor_args).and_then(|s| serde_json::from_str(&s).ok()).unwrap_or(Value::Null);
+    obs.doctor_after = run_cli(&mut obs, &doctor_args).and_then(|s| serde_json::from_str(&s).ok()).unwrap_or(Value::Null);
     // the authority the CLI spawned
     let meta = ripd::read_authority_meta(Path::new(&spec.data_dir)).ok().flatten();
     if let Some(meta) = &meta {
@@ -961,6 +990,7 @@ fn run_once(sc: &Scenario, key: &str, hdr: &str, num: &str) -> RunOut {
         doctor_only: c.doctor_only,
         rip_bin: if c.cli { rip_bin().map(|p| p.display().to_string()) } else { None },
         task_env_dump: c.task_env_dump.clone(),
+        cli_run: c.cli_run.clone(),
     };
     let spec_path = root.join("out/spec.json");
     std::fs::write(&spec_path, serde_json::to_vec(&spec).unwrap()).unwrap();
@@ -1202,6 +1232,20 @@ fn kind_code(k: &str) -> u64 {
 /// what the implementation showed, flattened (mirrors `model_obs` in Model/SecretFlow.v)
 fn observe(r: &RunOut) -> Vec<u64> {
     let mut o = vec![];
+    // -1. what the authority printed at start-up about an unusable tool choice (its stderr; authority.log when the CLI
+    //     spawned it; the in-process child calls from_env itself, as `serve` does)
+    let mut outs: Vec<u8> = r.stderr.clone();
+    for (p, b) in &r.files {
+        if p.ends_with("authority/authority.log") {
+            outs.push(b'\n');
+            outs.extend_from_slice(b);
+        }
+    }
+    let warns: Vec<String> = String::from_utf8_lossy(&outs).lines().filter(|l| l.starts_with("invalid RIP_OPENRESPONSES_TOOL_CHOICE=")).map(String::from).collect();
+    o.push(warns.len() as u64);
+    for w in &warns {
+        enc_str(&mut o, w);
+    }
     // 0. error texts of the per-source report, except those of files that do not parse / cannot be read (outside the model)
     let errs: Vec<String> = r.obs.doctor["sources"]
         .as_array()
@@ -1574,6 +1618,9 @@ fn gen_scenario(rng: &mut Rng, i: u64) -> Scenario {
     if rng.chance(1, 5) && sc.ovr.is_none() && sc.thread {
         sc.ovr = Some(Ovr { model: Some("m-ovr".into()), parallel: Some(true), ..Default::default() });
     }
+    if rng.chance(1, 8) {
+        sc.env.push(("RIP_OPENRESPONSES_TOOL_CHOICE".into(), if rng.chance(1, 2) { "bogus-choice".into() } else { "function: ".into() }));
+    }
     // an UNSELECTED provider with its own secrets (never matched by route or endpoint): nothing of it may show
     // anywhere, not even in the outgoing request
     if rng.chance(1, 2) {
@@ -1695,8 +1742,9 @@ fn gen_startup(rng: &mut Rng, j: u64) -> Scenario {
     };
     sc.env.push(("RIP_OPENRESPONSES_ENDPOINT".into(), ep.into()));
     sc.env.push(("RIP_OPENRESPONSES_API_KEY".into(), "{{K}}-sk-{{R}}".into()));
-    if rng.chance(1, 2) {
-        sc.env.push(("RIP_OPENRESPONSES_TOOL_CHOICE".into(), "definitely-not-a-tool-choice".into()));
+    let tc = ["definitely-not-a-tool-choice", "function:   ", "none", "function:ls", " auto ", "Required"];
+    if rng.chance(3, 4) {
+        sc.env.push(("RIP_OPENRESPONSES_TOOL_CHOICE".into(), tc[(j % 6) as usize].into()));
     }
     if rng.chance(1, 2) {
         sc.env.push(("RIP_OPENRESPONSES_STATELESS_HISTORY".into(), "maybe".into()));
@@ -1756,6 +1804,68 @@ fn gen_toolenv(rng: &mut Rng, j: u64) -> Scenario {
             sc.layers.push(Layer { slot, providers: vec![ProvSpec { id: "openrouter".into(), endpoint: Some("{{P}}/api/v1/responses?via=openrouter.ai".into()), ..Default::default() }], model: Some("openrouter/openai/gpt-oss-20b".into()), ..Default::default() });
         }
     }
+    sc
+}
+
+/// The run goes through the real CLI (`rip run <prompt>`: auto-spawned authority whose output goes to authority.log, thread
+/// path with the overrides the CLI derives from its environment or from --provider / --model / flags, frames rendered
+/// on stdout in one of the three headless views), followed by `rip config doctor`.
+fn gen_clirun(rng: &mut Rng, j: u64) -> Scenario {
+    let mut sc = Scenario { prompt: format!("cli run #{j}"), thread: true, cli: true, ..Default::default() };
+    sc.config_home = rng.chance(1, 2);
+    let view = ["raw", "output", "metrics"][(j % 3) as usize];
+    let mut args: Vec<String> = vec!["--view".into(), view.into()];
+    let slot = *rng.pick(&[0u8, 1, 2, 3, 4, 5, 6]);
+    let key = "{{K}}-sk-{{R}}".to_string();
+    let ep = endpoint_variant(rng, 0);
+    match j % 5 {
+        0 => {
+            sc.channel = "cli-run:inline+header".into();
+            sc.outcome = 0;
+            sc.layers.push(Layer { slot, providers: vec![ProvSpec { id: "acme".into(), endpoint: Some(ep), api_key: Some(KeySpec::Inline(key)), headers: vec![("X-Api-Key".into(), "tok {{H}}; v=\"1\"".into())] }], model: Some("acme/fixture-model".into()), ..Default::default() });
+        }
+        1 => {
+            sc.channel = "cli-run:envref".into();
+            sc.outcome = 1;
+            sc.env.push(("MY_PROVIDER_KEY".into(), key));
+            sc.layers.push(Layer { slot, providers: vec![ProvSpec { id: "acme".into(), endpoint: Some(ep), api_key: Some(KeySpec::Env("MY_PROVIDER_KEY".into())), ..Default::default() }], primary: Some("acme/fixture-model#fast".into()), ..Default::default() });
+        }
+        2 => {
+            sc.channel = "cli-run:env-overrides".into();
+            sc.outcome = 6;
+            sc.env.push(("RIP_OPENRESPONSES_ENDPOINT".into(), ep));
+            sc.env.push(("RIP_OPENRESPONSES_API_KEY".into(), key));
+            sc.env.push(("RIP_OPENRESPONSES_MODEL".into(), "env-model".into()));
+            sc.env.push(("RIP_OPENRESPONSES_TOOL_CHOICE".into(), "bogus-choice".into()));
+        }
+        3 => {
+            // only the provider's own variable is given: the CLI derives endpoint + RIP_OPENRESPONSES_API_KEY for the
+            // authority it spawns (apply_openresponses_env); the endpoint is the real one, unreachable here
+            sc.channel = "cli-run:--provider openai".into();
+            sc.outcome = 2;
+            sc.oracle_only = true;
+            sc.secret_unsendable = true;
+            sc.env.push(("OPENAI_API_KEY".into(), key));
+            args.extend(["--provider".to_string(), "openai".to_string()]);
+        }
+        _ => {
+            // the same with the derived variables spelled out, so that the model sees the authority's environment
+            sc.channel = "cli-run:--provider openrouter".into();
+            sc.outcome = 2;
+            sc.secret_unsendable = true;
+            sc.env.push(("OPENROUTER_API_KEY".into(), key.clone()));
+            sc.env.push(("RIP_OPENRESPONSES_API_KEY".into(), key));
+            sc.env.push(("RIP_OPENRESPONSES_ENDPOINT".into(), "https://openrouter.ai/api/v1/responses".into()));
+            sc.env.push(("RIP_OPENRESPONSES_MODEL".into(), "some/model".into()));
+            sc.env.push(("RIP_OPENRESPONSES_STATELESS_HISTORY".into(), "1".into()));
+            sc.ovr = Some(Ovr { endpoint: Some("https://openrouter.ai/api/v1/responses".into()), model: Some("some/model".into()), stateless: Some(true), parallel: None, followup: None });
+            args.extend(["--provider".to_string(), "openrouter".to_string(), "--model".to_string(), "some/model".to_string(), "--stateless-history".to_string()]);
+        }
+    }
+    if rng.chance(1, 2) {
+        sc.env.push(("RIP_OPENRESPONSES_DUMP_REQUEST".into(), "1".into()));
+    }
+    sc.cli_run = Some(args);
     sc
 }
 
@@ -1985,6 +2095,10 @@ fn main() {
     for j in 0..n_misfit {
         scenarios.push(gen_misfit(&mut rng, j, full));
     }
+    let n_clirun: u64 = args.extra.get("clirun").and_then(|v| v.parse().ok()).unwrap_or(if full { 30 } else { 5 });
+    for j in 0..n_clirun {
+        scenarios.push(gen_clirun(&mut rng, j));
+    }
     let n_toolenv: u64 = args.extra.get("toolenv").and_then(|v| v.parse().ok()).unwrap_or(if full { 24 } else { 6 });
     for j in 0..n_toolenv {
         scenarios.push(gen_toolenv(&mut rng, j));
@@ -1995,6 +2109,7 @@ fn main() {
     }
     if rip_bin().is_none() {
         res.notes.push("real `rip` binary not found (harness/target-cli/debug/rip, or $RV_RIP_BIN): the CLI scenarios use the real `ripd` process over HTTP instead".into());
+        scenarios.retain(|sc| sc.cli_run.is_none());
         for sc in &mut scenarios {
             if sc.cli {
                 sc.cli = false;
